@@ -7,6 +7,9 @@ COMMON_TB = [
     "String<->List Char conversion and Lean.Json at the driver boundary",
 ]
 
+IR_RULE = 'flattened-IR documents as the reducer produces them (1-3 controllers x 1-4 routes, 5 verbs, prefixes with/without leading, doubled and trailing slashes and {params}, hidden/deprecated mix, 0-3 security schemes with method/controller/default levels, all parameter locations, pointers, enums/aliases/structs/slices/maps, validator strings over the converter rule table, (T,error)/error/custom-error returns, @Response/@ErrorResponse codes), 20% perturbed (undeclared scheme, missing path binding), pushed through the real swagen.GenerateSpec (3.0.0 and 3.1.0) and routes.GenerateRoutes'
+IR_TB = ['model Gleece/Model/IR.lean + Router.lean are hand-written from the two emitters and the five template sets; tie = the `ir` correspondence stream (model projections vs the same projections of the real JSON documents and of the go/ast extraction of the rendered routes file)', 'kin-openapi / libopenapi (document validation, JSON rendering) and raymond (Handlebars) are exercised, not modelled']
+
 PROPS = {
     "C15": dict(
         streams=[dict(mode="paths", quick=30000, thorough=300000, workers=8)],
@@ -64,5 +67,34 @@ PROPS = {
         trusted_base=COMMON_TB + ['model Gleece/Model/IR.lean is hand-written from the two emitters and the five template sets; tie = the `ir` correspondence stream (model projections vs the same projections of the real JSON documents and of the go/ast extraction of the rendered routes file)', 'kin-openapi / libopenapi (document validation, JSON rendering) and raymond (Handlebars) are exercised, not modelled'],
         partial=[],
         assumptions=["schema shapes are compared up to `format` (time.Time and []byte are strings with a format; a validator may set a format too)"],
+    ),
+    "C02": dict(
+        streams=[dict(mode="ir", quick=1200, thorough=30000, workers=14, driver_workers=8)],
+        rule=IR_RULE + "; every rendered routes file is parsed with go/ast: registration table (verb, template literal), URL converter shape; non-trivial = at least one route; distinct = distinct document",
+        trusted_base=COMMON_TB + IR_TB + ["go/ast extraction of the rendered routes file (harness/cmd/vh/routesx.go)"],
+        partial=["dispatch inside gin/echo/mux/chi/fiber (which registered template a concrete request reaches) is sampled by the rig stream, not proved",
+                 "commutation of {x}->:x rewriting with slash-collapsing on the three colon engines is evaluated on every case (servedTemplate = documented path), not proved"],
+        assumptions=[],
+    ),
+    "C03": dict(
+        streams=[dict(mode="ir", quick=1200, thorough=30000, workers=14, driver_workers=8)],
+        rule=IR_RULE + "; handler skeleton per route per engine extracted with go/ast (authorize call with its SecurityCheckList literal, guard, controller construction, InitController, binds, validators, call) and the shape of the rendered authorize(); non-trivial = at least one route; distinct = distinct document",
+        trusted_base=COMMON_TB + IR_TB + ["go/ast extraction of the rendered routes file", "the framework delivers the request to the registered closure (rig stream)"],
+        partial=["the user's GleeceRequestAuthorization is an arbitrary stateful function in the model (Callback); its real Go behaviour (panics, context mutation) is exercised only by the rig stream"],
+        assumptions=[],
+    ),
+    "C05": dict(
+        streams=[dict(mode="ir", quick=1200, thorough=30000, workers=14, driver_workers=8)],
+        rule=IR_RULE + "; binding steps per parameter per engine (declared type, accessor->location, wire name, strconv function and bit size, validator tag, call arguments with pointer-ness); non-trivial = at least one route; distinct = distinct document",
+        trusted_base=COMMON_TB + IR_TB + ["strconv parses what FormatInt prints (decimal parsing is not modelled; only the range check is)", "go-playground/validator: a nil pointer fails `required`"],
+        partial=["framework accessors (what gin/echo/mux/chi/fiber return for a given request), floats and custom validator tags: rig stream only"],
+        assumptions=["parameter names are lower-camel already (ToLowerCamel is the identity on generated names)"],
+    ),
+    "C12": dict(
+        streams=[dict(mode="ir", quick=300, thorough=6000, workers=14, driver_workers=8, env={"VH_ALL_ENGINES": "1"})],
+        rule=IR_RULE + " with ALL FIVE engines rendered for every document; the five go/ast extractions are compared with each other (implementation vs implementation) and with the engine-free model; non-trivial = at least one route and at least two engines rendered; distinct = distinct document",
+        trusted_base=COMMON_TB + IR_TB + ["go/ast extraction + the per-engine accessor table (Gleece.Router.accessorTable) that erases engine-specific atoms"],
+        partial=["AccessorsAgree (the five frameworks hand the handler the same raw strings / presence bits and dispatch the same requests) is not provable in Lean; sampled by the rig stream"],
+        assumptions=[],
     ),
 }
